@@ -263,7 +263,10 @@ def addr_case(res, W, rng, lst, setting, slow=False, connect_timeout=None):
         elif o == "refused":
             net_.listen(ip, 8080, ("refused", [1.35, 3.4, 1.0][setting] if slow else 0))
         elif o == "unreachable":
-            net_.listen(ip, 8080, ("unreachable", [1.35, 3.4, 1.0][setting] if slow else 0))
+            # both ways an address can be unreachable: no route to its network, no route to the host itself
+            how = errno.EHOSTUNREACH if (ips.index(ip) + len(lst) + setting) % 2 else errno.ENETUNREACH
+            res.count("unreachable:" + errno.errorcode[how])
+            net_.listen(ip, 8080, ("unreachable", [1.35, 3.4, 1.0][setting] if slow else 0, how))
         else:
             errs[ip] = PermissionError(errno.EPERM, "Operation not permitted")
             net_.listen(ip, 8080, ("error", errs[ip]))
